@@ -133,8 +133,24 @@ def judge_oob(case, col):
     raise Violation("oversized_S_accepted", case, observed=hex(cid), expected="raises")
 
 
+def judge_level(case, col):
+    ser, origins, A5Cell, a5 = _lib()
+    res = case["res"]
+    got = a5.cell_to_children(0, res)
+    want = a5.get_num_cells(res)
+    if len(got) != want or len(set(got)) != want or want != refids.ncells(res):
+        raise Violation("level_count", case, observed=(len(got), len(set(got))), expected=want)
+    ref = set(refids.children(0, res))
+    if set(got) != ref:
+        diff = list(set(got) ^ ref)[:3]
+        raise Violation("level_set", case, observed=[hex(x) for x in diff], expected="reference id set")
+    col.bulk(1, 1, cls="level_set", sample=case)
+
+
 def judge(case, col):
     t = case["t"]
+    if t == "level":
+        return judge_level(case, col)
     if t == "cell":
         return judge_cell(case, col)
     if t == "raw":
@@ -182,16 +198,7 @@ def stage_levels(ctx):
     maxres = 6 if ctx.tier == "quick" else 8
     levels = list(range(0, maxres + 1))[ctx.shard::ctx.nshards]
     for res in levels:
-        got = a5.cell_to_children(0, res)
-        want = a5.get_num_cells(res)
-        case = {"t": "level", "res": res}
-        if len(got) != want or len(set(got)) != want or want != refids.ncells(res):
-            raise Violation("level_count", case, observed=(len(got), len(set(got))), expected=want)
-        ref = set(refids.children(0, res))
-        if set(got) != ref:
-            diff = list(set(got) ^ ref)[:3]
-            raise Violation("level_set", case, observed=[hex(x) for x in diff], expected="reference id set")
-        ctx.col.bulk(1, 1, cls="level_set", sample=case)
+        judge_level({"t": "level", "res": res}, ctx.col)
     ctx.col.exhaustive[f"cell_to_children(world, r) for r<={maxres}"] = True
 
 
